@@ -3,7 +3,7 @@
 import json
 import os
 
-from core import (Infra, build_harness, count_traces, execute, generate, model_check,
+from core import (Infra, build_harness, count_traces, trace_stats, execute, generate, model_check,
                   trace_events, validate, wrap, VERIF)
 import findings as F
 
@@ -40,6 +40,7 @@ def run_family(ctx, name, behaviours, tags, server_flags=None):
     traces = execute(ctx, behaviours, name, server_flags=server_flags)
     viols = validate(ctx, traces)
     ctx.count("traces_validated", count_traces(traces))
+    trace_stats(ctx, traces)
     for b in behaviours[:2]:
         if len(ctx.samples) < 6:
             ctx.samples.append({"family": name, "steps": b["steps"][:12], "nclients": b["nclients"]})
@@ -143,7 +144,37 @@ def check_C03(ctx):
     return "model_checking", fresh, known, cov, ["memdb backend only"]
 
 
-CHECKS = {"C01": check_C01, "C03": check_C03}
+def mc_cov(ctx, **extra):
+    cov = {"states": sum(r["distinct_states"] for r in ctx.tlc_runs) + ctx.counters.get("trace_states", 0),
+           "transitions": sum(r["states_generated"] for r in ctx.tlc_runs) + ctx.counters.get("trace_states", 0),
+           "traces_validated_against_impl": ctx.counters.get("traces_validated", 0)}
+    cov.update(extra)
+    return cov
+
+
+C02_TAGS = {"Converged", "RefEquiv", "BuildEquiv", "BuildNeverFails", "SyncNeverFails", "LogReplayable", "CloneEqRoot",
+            "PresenceConverged", "NoGapBelowCheckpoint"}
+
+
+def check_C02(ctx):
+    build_harness(ctx)
+    quick = ctx.tier == "quick"
+    n = 120 if quick else 1500
+    viols = []
+    i = 0
+    for th, iv in ([(1, 1), (2, 3), (3, 2)] if quick else [(1, 1), (1, 3), (2, 1), (2, 3), (3, 2), (4, 4)]):
+        for late in ['{}', '{"c3"}']:
+            i += 1
+            behs = gen_sim(ctx, "snap-t%d-i%d-%d" % (th, iv, i), n, alphabet="OpsMix", clients="Seq3", threshold=th, interval=iv,
+                           late=late, feat='{"idle", "build", "evict", "lateattach"}', weight=40, maxedits=3)
+            viols += run_family(ctx, "snap-t%d-i%d-%d" % (th, iv, i), behs, C02_TAGS)
+    fresh, known = split_known(ctx, viols)
+    if ctx.counters.get("snapshot_responses", 0) == 0:
+        raise Infra("vacuous: no snapshot response was ever served")
+    return "model_checking", fresh, known, mc_cov(ctx), ["memdb backend only"]
+
+
+CHECKS = {"C01": check_C01, "C02": check_C02, "C03": check_C03}
 
 
 def replay(ctx, path):
